@@ -150,14 +150,16 @@ def random_field(rng: random.Random, used: set[str], versions: list[int], flex_f
     if use_common:
         cname = rng.choice(sorted(common))
         f.update(name=_name(rng, used), type=("[]" if array else "") + cname)
-        constructs.append("common-struct-ref")
+        constructs.append("common-struct-ref" + (":nested" if depth > 1 else ""))
     else:
         sname = _name(rng, type_names, (2, 3))
         sub_tags: set[int] = set()
         sub_used: set[str] = set()
         nf = rng.randint(1, 5)
         f.update(name=_name(rng, used), type=("[]" if array else "") + sname,
-                 fields=[random_field(rng, sub_used, fv, flex_from, depth + 1, sub_tags, constructs, {}, type_names) for _ in range(nf)])
+                 fields=[random_field(rng, sub_used, fv, flex_from, depth + 1, sub_tags, constructs,
+                                      {k: c for k, c in common.items() if interpret.parse_range(c["versions"])[0] <= fv[0]} if rng.random() < 0.5 else {}, type_names)
+                         for _ in range(nf)])
         if not any(interpret.in_range(g["versions"], v) for g in f["fields"] for v in fv):
             f["fields"][0]["versions"] = f["versions"]
             f["fields"][0].pop("taggedVersions", None)
@@ -229,6 +231,17 @@ def random_definition(rng: random.Random, used_api: set[str], kind: str | None =
                     g.pop("default")
             constructs.append("commonStructs")
         fields = [random_field(rng, used, versions, flex_from, 1, tags, constructs, common, type_names) for _ in range(rng.randint(0 if t != "header" else 1, 8))]
+        if common and rng.random() < 0.7:
+            # make sure a common struct is referenced from two different parents of the same version (the layout upstream uses when a
+            # message is restructured: e.g. AddPartitionsToTxn references one struct from the top level and from a nested one)
+            cname = sorted(common)[0]
+            allv = f"{versions[0]}+"
+            fields.append({"versions": allv, "name": _name(rng, used), "type": "[]" + cname})
+            inner_used: set[str] = set()
+            fields.append({"versions": allv, "name": _name(rng, used), "type": "[]" + _name(rng, type_names, (2, 3)), "fields": [
+                {"versions": allv, "name": _name(rng, inner_used), "type": "int32"},
+                {"versions": allv, "name": _name(rng, inner_used), "type": rng.choice(("", "[]")) + cname}]})
+            constructs.append("common-struct:two-parents")
         name = base + {"request": "Request", "response": "Response", "header": "Hdr", "data": "Data"}[t]
         d: dict = {}
         if t in ("request", "response"):
